@@ -930,12 +930,12 @@ def run_generated(rep, tier):
     servers, handles = server_metadata(prog, it0, GCRATE, r'::__(G\d+)Endpoint<', exclude='AsyncGsvc')
     if set(servers) < {'g1', 'g2', 'g3'}:
         raise Inconclusive(f'C04 harness: generated endpoints not found: {servers}')
-    rep.bounds['generated'] = f'generated clients (blocking: g1-g4; async: g1, g3, g4) and generated #[conjure_endpoints] trait of gen-crates/service (real conjure-codegen output; server metadata {servers}); list query argument of 0..2 integers; set<string> query argument of 0..2 distinct members; optional<string> body and optional<string> result, present and absent'
+    rep.bounds['generated'] = f'generated clients (blocking: g1-g5; async: g1, g3, g4) and generated #[conjure_endpoints] trait of gen-crates/service (real conjure-codegen output; server metadata {servers}); list query argument of 0..2 integers; set<string> query argument of 0..2 distinct members; optional<string> body and optional<string> result, present and absent'
     tenv = {'T': ('path', 'MockClient', ())}
 
     def mk(rets):
         tm = {**bodyio.TMODELS, **ep.TMODELS, **models_serde.TMODELS}
-        for g in ('g1', 'g2', 'g3', 'g4'):
+        for g in ('g1', 'g2', 'g3', 'g4', 'g5'):
             tm[('Handler', 'Gsvc', g)] = T_handler
         tm[('MockClient', 'Client', 'send')] = make_send(prog, servers, handles, rets)
         tm[('MockClient', 'AsyncClient', 'send')] = make_send_async(tm[('MockClient', 'Client', 'send')])
@@ -1018,6 +1018,18 @@ def run_generated(rep, tier):
             c.syms = {'set_arg': ('set_str', [s_ for _, s_ in members]), 'opt_body': ('opt_str', (b_has, bs)), 'ret_opt': ('opt_str', (r_has, rs))}
             run_case(rep, it, dec, prog, c, st, tenv, f'blocking:set{ns}')
             finish_engine(rep, it)
+    # ---- g5: bearer tokens as path and query arguments (their alphabet contains '/', '+' and '=': the URI must carry them escaped)
+    if only in (None, 'g5'):
+        it = mk({})
+        dec = Decider(rep, it)
+        st = St()
+        c = GenCase('g5', 'Gsvc')
+        tok, ts = valid_token(st, 'tok')
+        qt, qs_ = valid_token(st, 'qt')
+        c.args = [tok, qt]
+        c.syms = {'tok': ('token', ts), 'qt': ('token', qs_)}
+        run_case(rep, it, dec, prog, c, st, tenv)
+        finish_engine(rep, it)
     # ---- the generated async client (GsvcAsyncClient) against the same endpoints: g1, g3, g4
     if only in (None, 'async'):
         it = mk({})
@@ -1072,7 +1084,8 @@ def run(rep, tier):
              {'op': 'loopback_gen', 'endpoint': 'g3', 'body_arg': b'"\\\n'.hex(), 'ret': b'\x00\xc3\xa9'.hex()},
              {'op': 'loopback_gen', 'endpoint': 'g4', 'set_arg': sorted([b'a&b'.hex(), b'%'.hex()]), 'opt_body': None, 'ret_opt': None},
              {'op': 'loopback_gen', 'endpoint': 'g4', 'set_arg': [], 'opt_body': b'"x'.hex(), 'ret_opt': b'\xc3\xa9'.hex()},
-             {'op': 'loopback_gen', 'endpoint': 'g4', 'set_arg': [''], 'opt_body': '', 'ret_opt': ''}]
+             {'op': 'loopback_gen', 'endpoint': 'g4', 'set_arg': [''], 'opt_body': '', 'ret_opt': ''},
+             {'op': 'loopback_gen', 'endpoint': 'g5', 'tok': 'a/b+c=', 'qt': 'x+/=='}, {'op': 'loopback_gen', 'endpoint': 'g5', 'tok': '~._-', 'qt': '0'}]
     for op, nat in zip(twins, replay(twins)):
         rep.replayed += 1
         ok, why = native_verdict(op, nat)
